@@ -1,8 +1,8 @@
 (* C10 - normal forms and Boolean quantifier elimination: statements only. *)
 From Coq Require Import List ZArith Bool String Reals Permutation.
 From PySMT.core Require Import Syntax Sem.
-From PySMT.models Require Import C10Local Nnf Aig Partition.
-From PySMT.proofs Require Import C10Local_proofs Nnf_proofs Aig_proofs Partition_proofs.
+From PySMT.models Require Import Oracles C10Local Nnf Aig Partition Qelim TimesDist PropTop.
+From PySMT.proofs Require Import C10Local_proofs Nnf_proofs Aig_proofs Partition_proofs Qelim_proofs TimesDist_proofs PropTop_proofs.
 Import ListNotations.
 
 (* ---------------- NNF ---------------- *)
@@ -48,3 +48,39 @@ Theorem C10_disj_partition_gen : forall t I l, is_vbool (eval I t) -> same_set l
   eval I (T OOr l) = eval I t.
 Proof. exact disj_partition_gen. Qed.
 Print Assumptions C10_disj_partition_gen.
+
+(* ---------------- Boolean quantifier elimination ---------------- *)
+Theorem C10_shannon_equiv : forall t I, wf_interp I -> qe_frag t = true -> eval I (shannon t) = eval I t.
+Proof. exact shannon_equiv. Qed.
+Print Assumptions C10_shannon_equiv.
+Theorem C10_shannon_shape : forall t, qe_frag t = true -> is_qf (shannon t) = true.
+Proof. exact shannon_shape. Qed.
+Print Assumptions C10_shannon_shape.
+Theorem C10_selfsub_equiv : forall t I, wf_interp I -> qe_frag t = true -> eval I (selfsub t) = eval I t.
+Proof. exact selfsub_equiv. Qed.
+Print Assumptions C10_selfsub_equiv.
+Theorem C10_selfsub_shape : forall t, qe_frag t = true -> is_qf (selfsub t) = true.
+Proof. exact selfsub_shape. Qed.
+Print Assumptions C10_selfsub_shape.
+
+(* ---------------- TimesDistributor ---------------- *)
+Theorem C10_td_equiv_int : forall I t, arith t = true -> kinded_int I t -> eval I (td t) = eval I t.
+Proof. exact td_equiv_int. Qed.
+Print Assumptions C10_td_equiv_int.
+Theorem C10_td_equiv_real : forall I t, arith t = true -> kinded_real I t -> eval I (td t) = eval I t.
+Proof. exact td_equiv_real. Qed.
+Print Assumptions C10_td_equiv_real.
+
+(* ---------------- propagate_toplevel (last step only; see models/PropTop.v) ----------------
+   full clause: forall t sigma I, licensed sigma t = true -> (holds I (propagate_with sigma t) <-> holds I t)
+   is FALSE of the model: *)
+Theorem C10_proptop_refuted :
+  exists t sigma I, licensed sigma t = true /\ holds I t /\ ~ holds I (propagate_with sigma t).
+Proof. exact proptop_refuted. Qed.
+Print Assumptions C10_proptop_refuted.
+
+(* ---------------- prenex normal form ----------------
+   NOT modelled in Coq in this round (full statement, for the record):
+     forall t I, wf_interp I -> boolish t = true -> atoms_qf t = true -> fresh names unused in t ->
+       eval I (prenex t) = eval I t  /\  prenex_shape (prenex t) = true
+   carried by the SEARCH oracle only (harness/c10.py: run_prenex). *)
